@@ -166,6 +166,32 @@ def run(rep):
                 # a to_string() of something that is not a string payload is exactly what must not happen
                 rep.check(okc, "CFG-CALLERS", "CFG-CALLERS/%s#%d" % (name, ncalls), n["sp"], "the pattern text handed to into_identifier is the payload of a YAML string", show(n["args"][0])[:80])
     rep.check(ncalls >= 2, "CFG-CALLERS", "CFG-CALLERS/sites", "src/parser.rs", "call sites of into_identifier found", str(ncalls))
+    # The ignore_case build sets Identifier.ignore_case on *every* pattern, numeric ones included (the flag is computed before the
+    # pattern kind is known).  The builds stay equivalent only because nobody looks at the flag of a non-string pattern: every read
+    # of the field sits inside the arm of a string pattern kind.
+    rep.describe("CFG-FLAG-READS", "Identifier.ignore_case is read only where the pattern is known to be a string pattern (Regex/Contains/EndsWith/Exact/StartsWith)")
+    from facts import walk_with_path
+    STRING_KINDS = {"Regex", "Contains", "EndsWith", "Exact", "StartsWith"}
+    nreads = 0
+    for name, f in sorted(A.fns.items()):
+        if f.thir is None or name.startswith("<identifier::Identifier as "):
+            continue
+        for n, path in walk_with_path(f.body):
+            if n.get("k") != "Field" or n.get("name") != "ignore_case" or "Identifier" not in str(peel(n["arg"]).get("ty", "")):
+                continue
+            nreads += 1
+            okr = False
+            for e in _q.context(path, n):
+                pat = e[1] if e[0] == "arm" else (peel(e[1])["pat"] if e[0] == "if" and e[2] and peel(e[1]).get("k") == "LetCond" else None)
+                if pat is None:
+                    continue
+                for alt in or_pats(pat):
+                    v = variant_of(alt)
+                    if v and v[0] == "Pattern" and v[1] in STRING_KINDS:
+                        okr = True
+            occ = sum(1 for i in rep.instances if i.key.startswith("CFG-FLAG-READS/%s#" % name))
+            rep.check(okr, "CFG-FLAG-READS", "CFG-FLAG-READS/%s#%d" % (name, occ), n["sp"], "the case flag is consulted only for a string pattern", show(path[-1])[:80] if path else "")
+    rep.check(nreads >= 10, "CFG-FLAG-READS", "CFG-FLAG-READS/sites", "src/parser.rs", "reads of Identifier.ignore_case found", str(nreads))
     rep.floor("CFG-HEAD", 8)
     rep.floor("CFG-ITEMS", 5)
     rep.exhaustive = True
